@@ -8,15 +8,10 @@ CONSTANTS
   CopyGate = TRUE
   Truncates = TRUE
   Privileged = FALSE
-  OptsSel = "all"
-  EnvOn = TRUE
-  Record = FALSE
-  MaxSteps = 0
-INVARIANT TypeOK
+  OptsSel = "t16"
+  EnvOn = FALSE
+  Record = TRUE
+  MaxSteps = 3
 INVARIANT RunEndOK
-INVARIANT NoTornFile
-INVARIANT IdleModes
-INVARIANT NeverDenied
-INVARIANT RefusedOnlyOnConflict
-INVARIANT UntouchedOthers
+INVARIANT Emit
 CHECK_DEADLOCK FALSE
